@@ -814,6 +814,9 @@ impl Engine for PbEngine {
                         b.extend_from_slice(&bytes[end..]);
                         out.push(PbCase { base: Base::Bytes(hex(&b)), ..case.clone() });
                         start += chunk;
+                        if n > 4096 && out.len() >= 96 {
+                            return out; // large inputs: coarsest candidates only; the minimiser asks again
+                        }
                     }
                     if chunk == 1 {
                         break;
